@@ -158,12 +158,12 @@ def decode_all(dec, tys):
 _REUSED = {}
 
 
-def run_impl(bo, wo, vals, repack=False, reuse=False):
+def run_impl(bo, wo, vals, repack=False, reuse=False, rejected=None):
     """reuse: ONE builder object per (byte order, word order, repack) serves all such cases, emptied with its own
     reset() before each — what a polling application does; reset() must leave nothing of the previous payload
     behind (its values, or anything derived from them).  The decoder is likewise rewound with reset() and read again."""
     from pymodbus.payload import BinaryPayloadBuilder, BinaryPayloadDecoder
-    tys = [type_of(v) for v in vals]
+    tys = [type_of(v) for v in vals if rejected is None or in_domain([v])]
     obs = {}
     try:
         if reuse:
@@ -175,12 +175,17 @@ def run_impl(bo, wo, vals, repack=False, reuse=False):
             b = BinaryPayloadBuilder(byteorder=endian(bo), wordorder=endian(wo), repack=repack)
         for v in vals:
             k = v[0]
-            if k == "Bits":
-                b.add_bits(py_value(v))
-            elif k == "Str":
-                b.add_string(py_value(v))
-            else:
-                getattr(b, "add_" + TAG[k])(py_value(v))
+            try:
+                if k == "Bits":
+                    b.add_bits(py_value(v))
+                elif k == "Str":
+                    b.add_string(py_value(v))
+                else:
+                    getattr(b, "add_" + TAG[k])(py_value(v))
+            except Exception:  # noqa: BLE001
+                if rejected is None:
+                    raise
+                rejected.append(v)      # the application catches the error and carries on with the same builder
         s = b.to_string()
         obs["bytes"] = ("ok", list(s))
     except Exception as e:  # noqa: BLE001
@@ -338,8 +343,19 @@ def in_domain(vals):
     return all(v[0] in ("Bits", "Str") or in_range(v[0], v[1]) for v in vals)
 
 
-def payload_case(bo, wo, vals, label=None, repack=False, reuse=False):
-    obs = run_impl(bo, wo, vals, repack=repack, reuse=reuse)
+def payload_case(bo, wo, vals, label=None, repack=False, reuse=False, recover=False):
+    """recover: values outside their type's range are REJECTED by their add_* call (struct.error), the application
+    catches that and goes on adding to the same builder; a rejected add must leave nothing behind, so what is built
+    is judged as the payload of the accepted values alone"""
+    if recover:
+        rej = []
+        obs = run_impl(bo, wo, vals, repack=repack, reuse=reuse, rejected=rej)
+        if len(rej) != len([v for v in vals if not in_domain([v])]):
+            obs = dict(obs, bytes=("exc", "ValueError"))       # an out-of-range value was NOT rejected
+        vals = [v for v in vals if in_domain([v])]
+        label = label or ("%s/%s:recover" % (bo, wo))
+    else:
+        obs = run_impl(bo, wo, vals, repack=repack, reuse=reuse)
     dom = in_domain(vals)
     desc = {"byteorder": bo, "wordorder": wo, "repack": repack, "values": [[v[0], v[1]] for v in vals],
             "impl": {k: list(v) for k, v in obs.items()}, "reused_builder": reuse}
@@ -385,6 +401,14 @@ def suite_payload(tier):
         vals = gen_sequence(r, malformed=(r.random() < 0.05))
         for bo, wo in ORDERS:
             cases.append(payload_case(bo, wo, vals))
+        if not in_domain(vals) or i % 50 == 0:
+            # a rejected add in the middle, the builder used on: 64-bit and 32-bit values around it in every order
+            mixed = list(vals) if not in_domain(vals) else vals + [gen_bad_int(r)] + [gen_value(r)]
+            mixed.insert(0, r.choice([("U64", 0x1122334455667788), ("I64", -2), ("U32", 7), ("U16", 0x1234)]))
+            mixed.append(r.choice([("I64", -0x0102030405060708), ("U64", 1), ("I16", -2)]))
+            mixed.insert(r.randrange(1, len(mixed)), r.choice([("U64", -1), ("U64", 1 << 64), ("I64", 1 << 63), ("I64", -(1 << 63) - 1)]))
+            for bo, wo in ORDERS:
+                cases.append(payload_case(bo, wo, mixed, recover=True))
         if i % 5 == 0 and in_domain(vals):
             # one builder reused through reset(): the previous payload had as many fields (all of other values), or one more
             other = [gen_value(r) for _ in vals]
